@@ -858,3 +858,34 @@ func addAccessorFacts(st *pathState, cond ssa.Value, val bool, depth int) {
 func isErrorType(t types.Type) bool {
 	return types.Identical(t, types.Universe.Lookup("error").Type())
 }
+
+// provWithCallers: provenance, replacing a root that is a parameter of a helper by the origins of
+// the corresponding argument at every static call site of that helper inside `cone` (the helper's callers).
+func provWithCallers(v ssa.Value, cone []*ssa.Function, depth int) []ssa.Value {
+	var out []ssa.Value
+	for _, root := range provenance(v, provOpts{}) {
+		p, ok := root.(*ssa.Parameter)
+		if !ok || depth > 2 {
+			out = append(out, root)
+			continue
+		}
+		h := p.Parent()
+		idx := paramIndex(h, p)
+		mapped := false
+		for _, g := range cone {
+			if g == h {
+				continue
+			}
+			for _, c := range callsIn(g) {
+				if c.Common().StaticCallee() == h && idx >= 0 && idx < len(c.Common().Args) {
+					mapped = true
+					out = append(out, provWithCallers(c.Common().Args[idx], cone, depth+1)...)
+				}
+			}
+		}
+		if !mapped {
+			out = append(out, root)
+		}
+	}
+	return out
+}
